@@ -55,6 +55,12 @@ func mergeProfile(r *rand.Rand) (gen.Profile, gen.DataCfg) {
 	if r.Intn(3) == 0 {
 		p.IfaceImplNode = 0.7
 	}
+	if r.Intn(3) == 0 {
+		p.Underscore = 0.8
+	}
+	if r.Intn(3) == 0 {
+		p.PluralNodes = 0.7
+	}
 	return p, gen.DataCfg{Seed: 1, ListMax: 2, Pool: 3}
 }
 
